@@ -598,6 +598,15 @@ def drop_reason_frames(key, rng):
     # --- truncation at every length (0..60 and beyond: every length of every base frame)
     for name, f in bf:
         out.append(("trunc-" + name, [f[:n] for n in range(0, len(f) + 1)] + [f + b"\0" * k for k in (1, 7, 40)]))
+    # --- the longest lines: IPv6 addresses that print at full length (no '::'), five-digit ports, ten-digit seq / ack
+    LP, LS = "2001:db8:aaaa:bbbb:cccc:dddd:eeee:ffff", "2001:db8:1111:2222:3333:4444:5555:6666"
+    ckl = (net.cookie(key, LP, LS, 65535, 65534) + 1) & 0xFFFFFFFF
+    out.append(("long-ipv6", [net.frame_tcp(LP, LS, 65535, 65534, 0xFFFFFFFF, 0xFFFFFFFE, 0x02),
+                              net.frame_tcp(LP, LS, 65535, 65534, 4294967295, ckl, 0x18, b"GET / HTTP/1.0\r\n\r\n"),
+                              net.frame_tcp(LP, LS, 65535, 65534, 4294967295, 4294967290, 0x1ff, b"x"),
+                              net.frame_udp(LP, LS, 65535, 65534, gens.dns_query()), net.frame_udp(LP, LS, 65535, 65535, CHG),
+                              gens.echo6(LP, LS), gens.ns6(LP, LS, mac_dst=MS), gens.echo6(LP, LS, ty=200, code=255),
+                              net.eth(MS, MP, 0x86DD, net.ipv6(LP, LS, 255, b"payload"))]))
     # --- layer 2: destination MAC
     macs = [MS, b"\xff" * 6, bytes.fromhex("333300000001"), bytes.fromhex("3333ff000001"), bytes.fromhex("01005e000001"),
             bytes.fromhex("01005e000002"), bytes.fromhex("3333ff000002"), bytes.fromhex("c0ffeec0ffef"), b"\0" * 6, MP]
